@@ -877,4 +877,484 @@ Section Core.
     intro H. unfold mutate_value.
     destruct (mv_new m); try (apply mutate_value_body_sep; exact H). sret. auto.
   Qed.
+  (* ---------------- collections ---------------- *)
+  Lemma read_list_sep v :
+    SEP (read_list v) (fun p => v = VRef (fst p) /\ (okV v -> Forall okV (snd p))).
+  Proof.
+    unfold read_list. sbi l Hl. subst v. sbi o Ho. destruct o; try apply sep_fail.
+    sret. split; auto. intro H. apply Ho. exact H.
+  Qed.
+  Lemma read_dict_sep v :
+    SEP (read_dict v) (fun p => v = VRef (fst p) /\ (okV v -> Forall (pok b A) (snd p))).
+  Proof.
+    unfold read_dict. sbi l Hl. subst v. sbi o Ho. destruct o; try apply sep_fail.
+    sret. split; auto. intro H. apply Ho. exact H.
+  Qed.
+  Lemma read_set_sep v :
+    SEP (read_set v) (fun p => v = VRef (fst p) /\ (okV v -> Forall okV (snd p))).
+  Proof.
+    unfold read_set. sbi l Hl. subst v. sbi o Ho. destruct o; try apply sep_fail.
+    sret. split; auto. intro H. apply Ho. exact H.
+  Qed.
+  Hint Resolve read_list_sep read_dict_sep read_set_sep : sp.
+
+  Lemma find_eq_index_sep xs v : SEP (find_eq_index ct xs v) (fun _ => True).
+  Proof. unfold find_eq_index. sgo. Qed.
+  Lemma dict_lookup_sep kvs k :
+    SEP (dict_lookup ct kvs k) (fun r => forall v, r = Some v -> exists p, In p kvs /\ snd p = v).
+  Proof.
+    unfold dict_lookup. sstep; [sstep|]. sstep. sstep.
+    intros v Hv. destruct (find _ kvs) as [p|] eqn:F; simpl in Hv; [|discriminate].
+    inversion Hv; subst. apply find_some in F. exists p. tauto.
+  Qed.
+  Lemma dict_assign_sep kvs k v :
+    Forall (pok b A) kvs -> okV k -> okV v -> SEP (dict_assign ct kvs k v) (Forall (pok b A)).
+  Proof.
+    intros Hk Hkk Hv. unfold dict_assign. sstep; [sstep|]. sstep. sstep.
+    destruct (existsb _ kvs).
+    - rewrite Forall_forall in *. intros p Hp. apply in_map_iff in Hp. destruct Hp as [q [<- Hq]].
+      destruct (val_eqb _ _ _ _ _); [|auto]. split; simpl; auto. apply (Hk _ Hq).
+    - apply Forall_app_1; auto. split; auto.
+  Qed.
+  Lemma set_mem_sep xs v : SEP (set_mem ct xs v) (fun _ => True).
+  Proof. unfold set_mem. sgo. Qed.
+  Lemma set_discard_sep xs v : Forall okV xs -> SEP (set_discard ct xs v) (Forall okV).
+  Proof. intro H. unfold set_discard. sstep; [sstep|]. sstep. sstep. now apply Forall_filter. Qed.
+  Hint Resolve find_eq_index_sep set_mem_sep : sp.
+
+  Definition pairok (p : val * val) : Prop := okV (fst p) /\ okV (snd p).
+
+  Lemma seq_extractor_sep sp coll voi r bi :
+    okV coll -> okV voi -> SEP (seq_extractor ct sp coll voi r bi) pairok.
+  Proof.
+    intros Hc Hv. unfold seq_extractor. sstep; [sstep; split; exact I|].
+    sbindT; [destruct bi; sgo|]. intros bi' _.
+    sbi p Hp. destruct Hp as [-> Hp]. specialize (Hp Hc). destruct bi'.
+    - destruct voi; try apply sep_fail; cbv zeta.
+      + destruct (norm_index _ _) as [n|]; [destruct (nth_error (snd p) n) eqn:E|]; sgo;
+          try (split; simpl; auto; fail).
+        split; simpl; auto. eapply Forall_nth_error; eauto.
+      + destruct (norm_index _ _) as [n|]; [destruct (nth_error (snd p) n) eqn:E|]; sgo;
+          try (split; simpl; auto; fail).
+        split; simpl; auto. eapply Forall_nth_error; eauto.
+    - sbi idx Hidx. destruct idx; sgo; split; simpl; auto.
+  Qed.
+
+  Lemma seq_inserter_sep sp coll index item ins :
+    freshv b coll -> okV item -> SEP (seq_inserter ct sp coll index item ins) (fun _ => True).
+  Proof.
+    intros H Hi. unfold seq_inserter. sbi ok Hok. destruct (negb ok); [apply sep_fail|].
+    sbi p Hp. destruct Hp as [-> Hp]. simpl in H. assert (Hxs : Forall okV (snd p)) by (apply Hp; simpl; auto).
+    destruct index; try apply sep_fail; cbv zeta.
+    - apply sep_write; auto. simpl. apply Forall_app_1; auto.
+    - destruct ins; [apply sep_write; auto; simpl; apply Forall_insert_at; auto|].
+      destruct (norm_index _ _); [|apply sep_fail]. apply sep_write; auto. simpl. apply Forall_set_at; auto.
+    - destruct ins; [apply sep_write; auto; simpl; apply Forall_insert_at; auto|].
+      destruct (norm_index _ _); [|apply sep_fail]. apply sep_write; auto. simpl. apply Forall_set_at; auto.
+  Qed.
+
+  Lemma map_extractor_sep coll key r : okV coll -> okV key -> SEP (map_extractor ct coll key r) pairok.
+  Proof.
+    intros Hc Hk. unfold map_extractor. sbi p Hp. destruct Hp as [-> Hp]. specialize (Hp Hc).
+    sbind; [apply dict_lookup_sep|]. intros rr Hr. destruct rr as [v|].
+    - sret. split; simpl; auto. destruct (Hr v eq_refl) as [q [Hq <-]].
+      rewrite Forall_forall in Hp. apply (Hp _ Hq).
+    - sgo; split; simpl; auto.
+  Qed.
+
+  Lemma map_inserter_sep sp coll key item :
+    freshv b coll -> okV key -> okV item -> SEP (map_inserter ct sp coll key item) (fun _ => True).
+  Proof.
+    intros H Hk Hi. unfold map_inserter. sbi okk Hokk. destruct (negb okk); [apply sep_fail|].
+    sbi ok Hok. destruct (negb ok); [apply sep_fail|].
+    sbi p Hp. destruct Hp as [-> Hp]. simpl in H.
+    sbind; [apply dict_assign_sep; auto; apply Hp; simpl; auto|]. intros kvs Hkvs.
+    apply sep_write; auto.
+  Qed.
+
+  Lemma set_extractor_sep coll voi r : okV voi -> SEP (set_extractor ct coll voi r) pairok.
+  Proof. intro Hv. unfold set_extractor. sgo; split; simpl; auto. Qed.
+
+  Lemma set_inserter_sep sp coll index item :
+    freshv b coll -> okV item -> SEP (set_inserter ct sp coll index item) (fun _ => True).
+  Proof.
+    intros H Hi. unfold set_inserter. sbi ok Hok. destruct (negb ok); [apply sep_fail|].
+    sbi p Hp. destruct Hp as [-> Hp]. simpl in H. assert (Hxs : Forall okV (snd p)) by (apply Hp; simpl; auto).
+    eapply sep_bind with (Q := Forall okV).
+    { destruct (py_truthy index); [apply set_discard_sep; auto|now sret]. }
+    intros xs1 H1. sbi b0 Hb0. apply sep_write; auto. simpl.
+    destruct b0; auto. apply Forall_app_1; auto.
+  Qed.
+
+  Lemma create_collection_sep sp : SEP (create_collection rec sp) (freshv b).
+  Proof. unfold create_collection. apply instantiate_ty_sep. Qed.
+  Hint Resolve create_collection_sep : sp.
+
+  Definition io_ok (io : item_op) : Prop :=
+    okV (io_voi io) /\ okV (io_new io) /\ oattrs_ok (io_attrs io) /\ xf_ok (io_transform io) /\
+    ats_ok (io_attr_transforms io).
+
+  Lemma mutate_collection_sep fam sp inst coll io :
+    specOk sp -> freshv b coll -> io_ok io ->
+    SEP (mutate_collection ct rec fam sp inst coll io) (freshv b).
+  Proof.
+    intros Hsp H (Hvoi & Hnew & Hat & Hxf & Hats). unfold mutate_collection.
+    eapply sep_bind with (Q := freshv b).
+    { destruct (is_missing coll); [sprim|sret; auto]. }
+    intros coll1 H1. assert (Ho1 := freshv_okv b A _ H1).
+    eapply sep_bind with (Q := pairok).
+    { destruct fam; [apply seq_extractor_sep|apply map_extractor_sep|apply set_extractor_sep]; auto. }
+    intros ex [Hex1 Hex2]. cbv zeta.
+    eapply sep_bind with (Q := okV).
+    { eapply sep_weaken; [apply Hrec; simpl; unfold mv_ok; simpl|].
+      - split; [exact Hnew|]. split; [left; exact Hex2|]. split; [exact Hsp|]. split; [exact Hat|].
+        split; [exact Hxf|]. split; [exact Hats|]. discriminate.
+      - simpl. intros r [Hr| ->]; auto. }
+    intros new_item Hni.
+    sbindT.
+    { destruct fam; [apply seq_inserter_sep|apply map_inserter_sep|apply set_inserter_sep]; auto. }
+    intros _ _. sret. exact H1.
+  Qed.
+
+  Lemma ats_ok_nil : ats_ok [].
+  Proof. split; [constructor|left; reflexivity]. Qed.
+  Lemma io_add_ok x : okV x -> io_ok (io_add x).
+  Proof.
+    intro H. unfold io_add, io_ok; simpl. split; [exact I|]. split; [exact H|].
+    split; [exact I|]. split; [exact I|apply ats_ok_nil].
+  Qed.
+  Lemma io_kv_ok k v : okV k -> okV v -> io_ok (mkio k v None None [] true false TriTrue false).
+  Proof.
+    intros Hk H. unfold io_ok; simpl. split; [exact Hk|]. split; [exact H|].
+    split; [exact I|]. split; [exact I|apply ats_ok_nil].
+  Qed.
+  Lemma io_transform_item_ok sp inst voi bi : specOk sp -> okV voi -> io_ok (io_transform_item sp inst voi bi).
+  Proof.
+    intros Hsp H. unfold io_transform_item, io_ok; simpl. split; [exact H|]. split; [exact I|].
+    split; [exact I|]. split; [exact Hsp|apply ats_ok_nil].
+  Qed.
+
+  Lemma add_items_sep fam sp inst coll items :
+    specOk sp -> freshv b coll -> okV items ->
+    SEP (add_items ct rec fam sp inst coll items) (freshv b).
+  Proof.
+    intros Hsp H Hit. unfold add_items. destruct items; try apply sep_fail.
+    sbi o Ho. destruct Ho as [Ho _]. specialize (Ho Hit).
+    destruct fam, o; try apply sep_fail; simpl in Ho;
+      (apply sep_foldM with (P := freshv b); [|exact H]; intros acc x Hx Hacc;
+       apply mutate_collection_sep; auto; rewrite Forall_forall in Ho; specialize (Ho _ Hx));
+      try (apply io_add_ok; first [exact Ho | apply Ho]).
+    destruct Ho. apply io_kv_ok; auto.
+  Qed.
+
+  Lemma prepare_items_sep fam sp inst coll :
+    specOk sp -> freshv b coll -> SEP (prepare_items ct rec fam sp inst coll) (freshv b).
+  Proof.
+    intros Hsp H. unfold prepare_items. assert (Hc := freshv_okv b A _ H). destruct fam.
+    - sbi p Hp. apply sep_foldM with (P := freshv b); [|exact H].
+      intros; apply mutate_collection_sep; auto. apply io_transform_item_ok; [exact Hsp|exact I].
+    - apply add_items_sep; auto.
+    - sbi p Hp. destruct Hp as [_ Hp]. specialize (Hp Hc).
+      apply sep_foldM with (P := freshv b); [|exact H].
+      intros acc x Hx Hacc; apply mutate_collection_sep; auto.
+      rewrite Forall_forall in Hp. apply io_transform_item_ok; auto.
+  Qed.
+
+  Lemma truthy_collection_sep v : SEP (truthy_collection v) (fun _ => True).
+  Proof. unfold truthy_collection. destruct v; sgo. Qed.
+  Hint Resolve truthy_collection_sep : sp.
+
+  Lemma coll_prepare_sep sp inst coll :
+    specOk sp -> okV coll -> SEP (coll_prepare ct rec sp inst coll) okV.
+  Proof.
+    intros Hsp Hc. unfold coll_prepare. destruct (family_of (a_ty sp)) as [fam|]; [|now sret].
+    eapply sep_bind with (Q := okV).
+    { destruct coll; try (now sret); (eapply sep_weaken; [apply create_collection_sep|apply freshv_okv]). }
+    intros coll1 H1. sbi ok Hok. destruct (negb ok).
+    - sbind; [apply create_collection_sep|]. intros fresh Hf.
+      eapply sep_weaken; [apply add_items_sep; auto|apply freshv_okv].
+    - sbi t Ht. destruct (a_prepare_item sp); [|now sret].
+      destruct t; [|now sret].
+      sbi l Hl. subst coll1. sbi o Ho. destruct Ho as [Ho _].
+      sbind; [apply sep_alloc; apply Ho; exact H1|]. intros l' Hl'.
+      eapply sep_weaken; [apply prepare_items_sep; simpl; auto|apply freshv_okv].
+  Qed.
+
+  Lemma prepare_attr_value_sep sp inst value attrs :
+    specOk sp -> okV value -> oattrs_ok attrs ->
+    SEP (prepare_attr_value ct rec sp inst value attrs) okV.
+  Proof.
+    intros Hsp Hv Ha. unfold prepare_attr_value.
+    eapply sep_bind with (Q := okV).
+    { eapply sep_weaken; [apply Hrec; simpl; unfold mv_ok; simpl|].
+      - split; [exact Hv|]. split; [left; exact I|].
+        split; [destruct Hsp as (H & _); destruct (a_prepare sp); [exact H|exact I]|].
+        split; [exact Ha|]. split; [exact I|]. split; [split; [constructor|left; reflexivity]|]. discriminate.
+      - simpl. intros r [Hr| ->]; auto. exact I. }
+    intros v Hv'.
+    destruct (ty_is_collection (a_ty sp)); [apply coll_prepare_sep; auto|now sret].
+  Qed.
+
+  Lemma setattr_sep l a v force skip :
+    b <= l -> okV v -> SEP (setattr_ ct rec l a v force skip) (fun _ => True).
+  Proof.
+    intros Hl Hv. unfold setattr_. sbi p Hp. sbi k Hk.
+    eapply sep_bind with (Q := okV).
+    { destruct (lookup_attr k a) eqn:E; [|now sret].
+      apply prepare_attr_value_sep; auto; [eapply lookup_attr_ok; eauto|exact I]. }
+    intros value Hval. eapply sep_weaken; [apply mutate_attr_sep; auto|auto].
+  Qed.
+  (* ---------------- __init__ and construction ---------------- *)
+  (* InitMethod.init after the classes have been looked up (same text as in Model.init_) *)
+  Definition init_tail (spec_cls : cid) (self : loc) (ks im : cls) (top : bool) (kw0 : list (aid * val)) : M val :=
+    kw1 <- (if top then
+              raw_setattr self A_INITIALIZING (VBool true) ;;;
+              foldM (fun kw parent =>
+                       pk <- cls_of ct parent ;;
+                       r <- foldM (fun acc psp =>
+                                     let '(pkw, kw') := acc in
+                                     match lookup_attr im (a_name psp) with
+                                     | None => ret acc
+                                     | Some isp =>
+                                         if negb (a_owner isp =? parent) then ret acc
+                                         else match assoc (a_name psp) kw' with
+                                              | Some v =>
+                                                  v' <- (if a_dnc isp then ret v else protect ct v) ;;
+                                                  ret (pkw ++ [(a_name psp, v')], assoc_del (a_name psp) kw')
+                                              | None =>
+                                                  d <- lookup_default_value ct rec isp im ;;
+                                                  if is_missing d then ret acc
+                                                  else ret (pkw ++ [(a_name psp, d)], kw')
+                                              end
+                                     end)
+                                  (c_attrs pk) ([], kw) ;;
+                       let '(pkw, kw') := r in
+                       let pkw' := match c_key pk with
+                                   | Some ka => if kw_has ka pkw then pkw else pkw ++ [(ka, VMissing)]
+                                   | None => pkw end in
+                       rec (KInit parent self pkw') ;;; ret kw')
+                    (rev (tl (c_mro ks))) kw0
+            else ret kw0) ;;
+    iterM (fun sp =>
+             if negb (a_init sp) || negb (a_owner sp =? spec_cls) then ret tt else
+             r <- (match assoc (a_name sp) kw1 with
+                   | Some v => if is_missing v then (d <- lookup_default_value ct rec sp im ;; ret (d, false))
+                               else ret (v, top && negb (a_dnc sp))
+                   | None => d <- lookup_default_value ct rec sp im ;; ret (d, false) end) ;;
+             let '(value, copy_required) := r in
+             if is_missing value then ret tt else
+             value' <- (if copy_required then protect ct value else ret value) ;;
+             rec (KSetAttr self (a_name sp) value' true true) ;;; ret tt)
+          (c_attrs im) ;;;
+    (if top then
+       (match c_post_init im with
+        | Some g => apply_fn g VNone ;;; ret tt
+        | None => ret tt end) ;;;
+       raw_delattr self A_INITIALIZING
+     else ret tt) ;;;
+    ret VNone.
+
+  Lemma init_unfold spec_cls self kw0 :
+    init_ ct rec spec_cls self kw0 =
+    (ks <- cls_of ct spec_cls ;;
+     if negb (init_wrapper_ok ks kw0) then fail TypeErr else
+     p <- read_inst self ;; im <- cls_of ct (fst p) ;;
+     init_tail spec_cls self ks im (c_owner im =? spec_cls) kw0).
+  Proof. reflexivity. Qed.
+
+  Lemma assoc_in {T} a (l : list (nat * T)) v : assoc a l = Some v -> In (a, v) l.
+  Proof.
+    unfold assoc. destruct (find (fun p : nat * T => fst p =? a) l) as [[x y]|] eqn:F; simpl; [|discriminate].
+    intro E; inversion E; subst. apply find_some in F. destruct F as [F1 F2].
+    simpl in F2. apply Nat.eqb_eq in F2. subst. exact F1.
+  Qed.
+
+  Lemma dncname_true k sp : In k ct -> In sp (c_attrs k) -> a_dnc sp = true -> dncname (a_name sp) = true.
+  Proof.
+    intros Hk Hsp Hd. unfold dncname. apply existsb_exists. exists k. split; auto.
+    apply existsb_exists. exists sp. split; auto. rewrite Nat.eqb_refl, Hd. reflexivity.
+  Qed.
+
+  (* what is known about the keywords of __init__: all allowed, or (top-level
+     call, where the non-do_not_copy ones get copied) only the do_not_copy ones *)
+  Definition KWP (top : bool) (kw : list (aid * val)) : Prop :=
+    kw_okv kw \/ (top = true /\ kwok kw).
+
+  Lemma KWP_del top a kw : KWP top kw -> KWP top (assoc_del a kw).
+  Proof.
+    intros [H|[Ht H]]; [left; now apply fok_assoc_del|right; split; auto].
+    intros a' v Hin. apply H. unfold assoc_del in Hin. apply filter_In in Hin. tauto.
+  Qed.
+
+  Lemma KWP_dnc top kw k sp v :
+    KWP top kw -> In k ct -> In sp (c_attrs k) -> (top = false \/ a_dnc sp = true) ->
+    assoc (a_name sp) kw = Some v -> okV v.
+  Proof.
+    intros [H|[Ht H]] Hk Hsp Hc E.
+    - eapply fok_assoc; eauto.
+    - destruct Hc as [Hc|Hc]; [congruence|].
+      destruct (H _ _ (assoc_in _ _ _ E)) as [Hv|Hn]; auto.
+      rewrite (dncname_true k sp Hk Hsp Hc) in Hn. discriminate.
+  Qed.
+
+  Lemma init_tail_sep spec_cls self ks cim im top kw0 :
+    b <= self -> lookup_cls ct cim = Some im -> KWP top kw0 ->
+    SEP (init_tail spec_cls self ks im top kw0) (fun _ => True).
+  Proof.
+    intros Hs Him Hkw. unfold init_tail.
+    assert (Hin_im := lookup_cls_in ct _ _ Him).
+    assert (Hok_im := lookup_cls_ok ct b A ct_ok _ _ Him).
+    eapply sep_bind with (Q := KWP top).
+    { destruct top eqn:Et; [|now sret].
+      sbindT; [apply raw_setattr_sep; [exact Hs|exact I]|]. intros _ _.
+      apply sep_foldM with (P := KWP true); [|exact Hkw].
+      intros kw parent _ Hk. sbi pk Hpk.
+      eapply sep_bind with (Q := fun acc : list (aid * val) * list (aid * val) =>
+                                    kw_okv (fst acc) /\ KWP true (snd acc)).
+      { apply sep_foldM with (P := fun acc : list (aid * val) * list (aid * val) =>
+                                    kw_okv (fst acc) /\ KWP true (snd acc)); [|split; [constructor|exact Hk]].
+        intros [pkw kw'] psp _ [Hp1 Hp2]. simpl in Hp1, Hp2.
+        destruct (lookup_attr im (a_name psp)) as [isp|] eqn:Ei; [|sret; split; auto].
+        destruct (lookup_attr_in _ _ _ Ei) as [Hisp Hname].
+        destruct (negb (a_owner isp =? parent)); [sret; split; auto|].
+        destruct (assoc (a_name psp) kw') eqn:Ea.
+        - eapply sep_bind with (Q := okV).
+          + destruct (a_dnc isp) eqn:Ed; [|eapply sep_weaken; [sprim|apply freshv_okv]].
+            sret. rewrite <- Hname in Ea. eapply KWP_dnc; eauto.
+          + intros v' Hv'. sret. simpl. split; [apply Forall_app_1; auto|now apply KWP_del].
+        - sbind; [apply lookup_default_value_sep; destruct Hok_im as [H _]; apply H; exact Hisp|].
+          intros d Hd. destruct (is_missing d); sret; simpl; split; auto.
+          apply Forall_app_1; auto. now apply freshv_okv. }
+      intros [pkw kw'] [Hp1 Hp2]. simpl in Hp1, Hp2. cbv zeta.
+      sbindT; [|intros; now sret].
+      apply rec_sep. simpl. split; [exact Hs|].
+      destruct (c_key pk) as [ka|]; [|exact Hp1].
+      destruct (kw_has ka pkw); [exact Hp1|]. apply Forall_app_1; auto. exact I. }
+    intros kw1 Hkw1.
+    sbindT.
+    { apply sep_iterM. intros sp Hsp.
+      destruct (negb (a_init sp) || negb (a_owner sp =? spec_cls)); [now sret|].
+      assert (Hspok : specOk sp) by (destruct Hok_im as [H _]; apply H; exact Hsp).
+      eapply sep_bind with (Q := fun r : val * bool => snd r = false -> okV (fst r)).
+      { assert (Hdf : SEP (d <- lookup_default_value ct rec sp im ;; ret (d, false))
+                          (fun r : val * bool => snd r = false -> okV (fst r))).
+        { sbind; [apply lookup_default_value_sep; exact Hspok|]. intros d Hd. sret. intros _. now apply freshv_okv. }
+        destruct (assoc (a_name sp) kw1) as [v|] eqn:Ea; [|exact Hdf].
+        destruct (is_missing v); [exact Hdf|]. sret. simpl. intro Hc.
+        eapply KWP_dnc; eauto. destruct top; auto. right. simpl in Hc.
+        destruct (a_dnc sp); auto. }
+      intros [value copy_required] Hr. simpl in Hr.
+      destruct (is_missing value); [now sret|].
+      eapply sep_bind with (Q := okV).
+      { destruct copy_required; [eapply sep_weaken; [sprim|apply freshv_okv]|sret; auto]. }
+      intros value' Hv'. sbindT; [apply rec_sep; simpl; auto|]. intros; now sret. }
+    intros _ _.
+    sbindT.
+    { destruct top; [|now sret].
+      sbindT.
+      - destruct (c_post_init im) as [g|] eqn:Eg; [|now sret].
+        sbindT; [|intros; now sret].
+        eapply sep_weaken; [apply apply_fn_sep; [|left; exact I]|auto].
+        destruct Hok_im as (_ & H & _). rewrite Eg in H. exact H.
+      - intros _ _. sprim. }
+    intros; now sret.
+  Qed.
+
+  Lemma init_sep c self kw0 : b <= self -> kw_okv kw0 -> SEP (init_ ct rec c self kw0) (fun _ => True).
+  Proof.
+    intros Hs Hkw. rewrite init_unfold. sbi ks Hks.
+    destruct (negb (init_wrapper_ok ks kw0)); [apply sep_fail|].
+    sbi p Hp. sbi im Him. eapply init_tail_sep; eauto. left. exact Hkw.
+  Qed.
+
+  Lemma bind_ok {T U} (m : M T) (k : T -> M U) s a s1 : m s = (Ok a, s1) -> bind m k s = k a s1.
+  Proof. unfold bind. now intros ->. Qed.
+
+  (* the constructor call on a freshly allocated instance of the class itself *)
+  Lemma init_top c self kw0 s :
+    b <= self -> kwok kw0 -> sinv b A h0 s -> cls_at self c s ->
+    sinv b A h0 (snd (init_ ct rec c self kw0 s)).
+  Proof.
+    intros Hs Hkw Hinv [d Hd]. rewrite init_unfold.
+    unfold cls_of at 1. destruct (lookup_cls ct c) as [ks|] eqn:Ek; [|exact Hinv].
+    rewrite bind_ok with (a := ks) (s1 := s) by reflexivity.
+    destruct (negb (init_wrapper_ok ks kw0)); [exact Hinv|].
+    rewrite bind_ok with (a := (c, d)) (s1 := s).
+    2:{ unfold read_inst. rewrite bind_ok with (a := OInst c d) (s1 := s); [reflexivity|].
+        unfold read. rewrite Hd. reflexivity. }
+    cbn [fst]. rewrite bind_ok with (a := ks) (s1 := s) by (unfold cls_of; rewrite Ek; reflexivity).
+    rewrite (wf_owner c ks Ek), Nat.eqb_refl.
+    refine (proj1 (init_tail_sep c self ks c ks true kw0 Hs Ek _ s Hinv)).
+    right. split; auto.
+  Qed.
+
+  Lemma sep_alloc_then {T} o (k : loc -> M T) (Q : T -> Prop) :
+    obj_ok b A o ->
+    (forall l s1, b <= l -> sinv b A h0 s1 -> nth_error (heap s1) l = Some o ->
+       sinv b A h0 (snd (k l s1)) /\ match fst (k l s1) with Ok a => Q a | Err _ => True end) ->
+    SEP (l <- alloc o ;; k l) Q.
+  Proof.
+    intros Ho Hk s Hs. unfold bind at 1. unfold alloc at 1.
+    destruct (sep_alloc b A h0 o Ho s Hs) as [I1 L]. simpl in I1, L.
+    apply Hk; auto. simpl. rewrite nth_error_app2 by lia. rewrite Nat.sub_diag. reflexivity.
+  Qed.
+
+  Lemma construct_sep c pos kw :
+    kwok kw -> match pos with Some v => okV v | None => True end ->
+    SEP (construct ct rec c pos kw) (freshv b).
+  Proof.
+    intros Hkw Hpos. unfold construct. sbi k Hk.
+    eapply sep_bind with (Q := kwok).
+    { destruct pos as [v|]; [|now sret]. destruct (c_key k) as [ka|]; [|apply sep_fail].
+      destruct (kw_has ka kw); [apply sep_fail|]. sret.
+      intros a x [E|Hin]; [inversion E; subst; auto|auto]. }
+    intros kw' Hkw'.
+    sbindT. { destruct (c_key k) as [ka|]; [|now sret]. destruct (lookup_attr k ka); [|now sret]. sgo. }
+    intros _ _.
+    sbindT; [sgo|]. intros _ _.
+    apply sep_alloc_then; [constructor|].
+    intros l s1 Hl Hs1 Hn.
+    assert (H2 := Hrec_top c l kw' s1 Hl Hkw' Hs1 (ex_intro _ [] Hn)).
+    unfold bind. destruct (rec (KInit c l kw') s1) as [[r|e] s2]; simpl in *; auto.
+  Qed.
+
+  Theorem body_sep k : call_ok k -> SEP (body ct rec k) (post k).
+  Proof.
+    destruct k; simpl; intro H.
+    - destruct H. apply setattr_sep; auto.
+    - apply delattr_sep; auto.
+    - destruct H. apply construct_sep; auto.
+    - destruct H. apply init_sep; auto.
+    - apply mutate_value_sep; auto.
+  Qed.
+
+  Theorem body_top c l kw s :
+    b <= l -> kwok kw -> sinv b A h0 s -> cls_at l c s ->
+    sinv b A h0 (snd (body ct rec (KInit c l kw) s)).
+  Proof. simpl. apply init_top. Qed.
 End Core.
+
+(* ------------------------------------------------------------------ *)
+Section Exec.
+  Variable ct : ctable.
+  Hypothesis no_dnc : forall c k, lookup_cls ct c = Some k -> c_dnc k = false.
+  Hypothesis wf_owner : forall c k, lookup_cls ct c = Some k -> c_owner k = c.
+  Variable b : nat.
+  Variable A : loc -> Prop.
+  Variable h0 : list obj.
+  Hypothesis AC : A_closed b A h0.
+  Hypothesis ct_ok : table_ok ct b A.
+  Hypothesis A_dnc : dnc_allowed ct b A h0.
+
+  Theorem exec_sep fuel :
+    (forall k, call_ok ct b A k -> sep b A h0 (exec ct fuel k) (post b A k)) /\
+    (forall c l kw s, b <= l -> kwok ct b A kw -> sinv b A h0 s -> cls_at l c s ->
+       sinv b A h0 (snd (exec ct fuel (KInit c l kw) s))).
+  Proof.
+    induction fuel as [|f [IH1 IH2]]; simpl.
+    - split; [intros; apply sep_fail|intros; assumption].
+    - split.
+      + intros k Hk. eapply body_sep; eauto.
+      + intros. eapply body_top; eauto.
+  Qed.
+End Exec.
